@@ -73,6 +73,24 @@ def _val(v):
     return str(v) if isinstance(v, str) else int(v)
 
 
+def _layout(rows):
+    """the same row ids in the memory layouts a caller's arrays come in: owned and contiguous (mostly), every other
+    word of a wider buffer (a column of a table), reversed storage read backwards, or read-only (a memory-mapped file)"""
+    r = ORDER_RND.random()
+    if r < 0.72 or not len(rows):
+        return rows
+    if r < 0.82:
+        buf = np.full(2 * len(rows), 0xDEADBEEF, dtype=np.uint32)
+        buf[::2] = rows
+        return buf[::2]
+    if r < 0.90:
+        buf = np.full(len(rows) + 2, 0xDEADBEEF, dtype=np.uint32)
+        buf[1:-1] = rows[::-1]
+        return buf[1:-1][::-1]
+    rows.flags.writeable = False
+    return rows
+
+
 def canonical(iindex, dense, common):
     """build the unique well-formed index of (dense, common) without using library constructors' logic"""
     dense = np.asarray(dense, dtype=object)
@@ -88,7 +106,7 @@ def canonical(iindex, dense, common):
             if v == common:
                 continue
             rows = [r for r, x in enumerate(col.tolist()) if x == v]
-            entries[(_val(v),) + hc] = np.array(rows, dtype=np.uint32)
+            entries[(_val(v),) + hc] = _layout(np.array(rows, dtype=np.uint32))
     # a dict has an insertion order and nothing may depend on it: half of the objects get a shuffled one
     if ORDER_RND.random() < 0.5:
         items = list(entries.items())
@@ -97,13 +115,14 @@ def canonical(iindex, dense, common):
     return iindex(entries, _val(common), tuple(int(s) for s in dense.shape))
 
 
-def wellformed(idx):
-    """steering only: is this object still inside the contract's pre-conditions?"""
+def wellformed(idx, allow_empty=False):
+    """steering only: is this object still inside the contract's pre-conditions? allow_empty: an entry without rows is
+    tolerated (it leaves the dense array the index stands for well defined, so the history can go on being judged)"""
     try:
         nd = len(idx.shape)
         seen = {}
         for k, rows in dict.items(idx):
-            if len(k) != nd or k[0] == idx.common or len(rows) == 0:
+            if len(k) != nd or k[0] == idx.common or (len(rows) == 0 and not allow_empty):
                 return False
             r = np.asarray(rows)
             if r.dtype != np.uint32 or r.ndim != 1:
